@@ -743,6 +743,32 @@ if ba == bb and A != B:
 sys.exit(0)
 '''
     key = task["args"].get("key")
+    if key == "range_x" and task["args"].get("plateau"):
+        return common.REPLAY_HEAD + f'''
+# plateau search: lower bound is a don't-care, the upper bound max(range_x) matters,
+# [a, b] and [b, a] are the same effective setting
+import nanite, warnings
+from nanite.fit import IndentationFitter
+from nanite.model import models_available
+x = np.linspace(1e-6, -1e-6, 8); y = np.linspace(0, 1e-9, 8)
+idnt = nanite.Indentation(data={{"tip position": x, "force": y, "segment": np.zeros(8, dtype=np.uint8)}},
+                          metadata={{"path": "/sym/c.jpk-force", "enum": 0, "point count": 8, "imaging mode": "force-distance"}})
+def h(r):
+    P = models_available["hertz_para"].get_parameter_defaults()
+    return IndentationFitter(idnt, params_initial=P, optimal_fit_edelta=True, range_x=r).hash
+name = {ob["name"]!r}
+bad = False
+if name.startswith("dontcare"):
+    bad = h([1.0, 5.0]) != h([3.0, 5.0])
+elif name.startswith("sensitive"):
+    bad = h([1.0, 5.0]) == h([1.0, 6.0])
+else:
+    bad = h([1.0, 5.0]) != h([5.0, 1.0]) or h((1.0, 5.0)) != h([1.0, 5.0])
+print(name, "violated on the real hash:", bad)
+if bad:
+    print("REPRODUCED"); sys.exit(1)
+sys.exit(0)
+'''
     return common.REPLAY_HEAD + f'''
 # structural replay: perturb the setting on a real fitter and compare hashes
 import nanite, copy
